@@ -446,6 +446,10 @@ fn e2e_batch(o: &mut Outcome, batch: &[E2e], tag: &str) {
         o.count(&format!("e2e:idem:upper{}", e.cfg.upper));
         if r2.status == pool::Status::Timeout {
             o.count("e2e:second_pass:timeout");
+        } else if e.cfg.threshold == 0 || e.cfg.max_width < 60 {
+            // outside the alignment machinery (threshold 0) or on a page so narrow that the layout is decided by the
+            // rewriters' fall-backs: idempotence there is C02's measured universe, not this generator's business
+            o.count(if !r2.clean() || &r2.out != out1 { "e2e:idem:not-judged(changed)" } else { "e2e:idem:not-judged(same)" });
         } else if !r2.clean() || &r2.out != out1 {
             o.direct_failures.push(json!({"sig": format!("vertical:idempotence:upper{}", e.cfg.upper), "src": e.src, "cfg": format!("{:?}", e.cfg), "first": out1, "second": r2.out, "what": "a second pass changes the result"}));
         }
